@@ -117,6 +117,91 @@ def run_segments(binpath, segments, handshake=True):
         r.kill()
 
 
+def waiting_session(rng):
+    """messages of a client that waits for every answer before it goes on; frames with 2-, 3- and 4-digit lengths in changing order,
+    so that a frame is often followed by one with a shorter header"""
+    uri = "file:///c19/w.spl"
+    text = "// käse € 😀\nproc main() {\n    var x: int; // ünï\n    x := 'a' + 0x10;\n    undefined(x);\n}\n"
+    J = lambda o: json.dumps(o, ensure_ascii=False, separators=(",", ":")).encode()
+    msgs = [J({"jsonrpc": "2.0", "id": 1, "method": "initialize", "params": {"capabilities": {}}}), J({"jsonrpc": "2.0", "method": "initialized", "params": {}})]
+    rid = 1
+    def req(method, extra, size=None):
+        nonlocal rid
+        rid += 1; o = {"jsonrpc": "2.0", "id": rid, "method": method, "params": dict({"textDocument": {"uri": uri}}, **extra)}
+        return pad(o, size) if size else J(o)
+    opened = False
+    for _ in range(rng.randint(4, 9)):
+        c = rng.random()
+        if c < .3 or not opened:
+            big = text + "// " + "x€" * rng.choice([10, 300, 400]) + "\n"
+            msgs.append(J({"jsonrpc": "2.0", "method": "textDocument/didOpen", "params": {"textDocument": {"uri": uri, "languageId": "spl", "version": 0, "text": big}}})); opened = True
+        elif c < .5: msgs.append(req("textDocument/hover", {"position": {"line": 2, "character": 9}}, rng.choice([None, 999, 1000, 1001])))
+        elif c < .7: msgs.append(req("textDocument/foldingRange", {}, rng.choice([None, 200, 999, 1000])))
+        elif c < .85: msgs.append(J({"jsonrpc": "2.0", "method": "$/unknownNotification"}))
+        else: msgs.append(req("textDocument/semanticTokens/full", {}))
+    rid += 1; msgs.append(J({"jsonrpc": "2.0", "id": rid, "method": "shutdown"})); msgs.append(J({"jsonrpc": "2.0", "method": "exit"}))
+    return msgs
+
+
+def interesting_cuts(rng, frame_bytes, hdr_len):
+    """0-3 cut points inside one frame: near the end of the header block, inside the length, inside the body (also inside characters)"""
+    n = len(frame_bytes); cuts = set()
+    for _ in range(rng.choice([0, 1, 2, 2, 3])):
+        c = rng.random()
+        if c < .4: cuts.add(hdr_len - rng.choice([1, 2, 3, 4]))          # inside the \r\n\r\n that ends the header block
+        elif c < .55: cuts.add(rng.randint(1, max(1, hdr_len - 5)))      # inside the header field
+        else: cuts.add(rng.randint(hdr_len, n - 1))                      # inside the body
+    return sorted(x for x in cuts if 0 < x < n)
+
+
+def worker_waiting(args):
+    """a client that waits: every message is written in 1-4 segments (each only after the server was seen blocked in read(0)), and the
+    answer to every request is awaited before the next message is sent. An answer that only comes when more input arrives is a violation."""
+    shard, nsess, seed = args
+    binpath = server_bin("rel"); part = Part()
+    rng = random.Random("C19/waiting/%s/%d" % (seed, shard))
+    for it in range(nsess):
+        srng = random.Random(rng.getrandbits(32))
+        bodies = waiting_session(srng)
+        variant = [srng.choice([0, 0, 1, 2]) for _ in bodies]
+        frames = [framed(b, v) for b, v in zip(bodies, variant)]
+        plan = [interesting_cuts(srng, f, f.index(b"\r\n\r\n") + 4) for f in frames]
+        sc = {"kind": "waiting", "seed": "%s/%d/%d" % (seed, shard, it), "cuts": plan, "lengths": [len(b) for b in bodies]}
+        r = Run(binpath)
+        try:
+            ok = True
+            for f, cuts, body in zip(frames, plan, bodies):
+                segs = [f[a:b] for a, b in zip([0] + cuts, cuts + [len(f)])]
+                for sg in segs:
+                    t0 = time.monotonic()
+                    while not blocked_on_stdin(r.p.pid):
+                        if r.p.poll() is not None: break
+                        if time.monotonic() - t0 > 10: break
+                        r.pump(0.0003)
+                    if not r.write(sg): break
+                part.ev()
+                o = json.loads(body)
+                if "id" in o:
+                    t0 = time.monotonic()
+                    while not any(m.get("id") == o["id"] and "method" not in m for m in r.msgs):
+                        if r.eof or time.monotonic() - t0 > 10: break
+                        r.pump(0.01)
+                    if not any(m.get("id") == o["id"] and "method" not in m for m in r.msgs):
+                        part.fail("request %d (%s, %d-byte body, written in %d segment(s) after frames with bodies of %r bytes) got no answer within 10 s although it was written completely and the server is waiting for input"
+                                  % (o["id"], o["method"], len(body), len(segs), sc["lengths"][:bodies.index(body)][-2:]), sc); ok = False; break
+            if ok:
+                res = r.finish(close_stdin=True, limit=15)
+                if res[:2] != ("exit", 0) or r.torn: part.fail("waiting client, segmented writes: %r %s" % (res[:2], r.torn or ""), sc)
+                else:
+                    part.cnt("waiting_sessions"); part.see(("waiting", len(bodies), sum(len(c) for c in plan)))
+                    for f, cuts in zip(frames, plan):
+                        h = f.index(b"\r\n\r\n") + 4
+                        for c in cuts: part.cnt("waiting_cuts_" + ("header-end" if h - 4 <= c < h else "header" if c < h else "body"))
+        finally:
+            r.kill()
+    return part
+
+
 def compare(part, ref, got, what, sc):
     res, proj, torn, n = got
     if res == "never-blocked": part["inconclusive"].append("%s: no server thread was ever seen blocked in read(0)" % what); return False
@@ -195,6 +280,7 @@ def run(ctx):
     jobs = []
     for kind in ("ascii", "unicode", "sizes", "headers"): jobs += [(kind, i, 4, "k-way", ctx.seed, 8 if ctx.quick else 150) for i in range(4)]
     for p in pmap(worker, jobs): ctx.merge(p)
+    for p in pmap(worker_waiting, [(i, 12 if ctx.quick else 400, ctx.seed) for i in range(NCPU)]): ctx.merge(p)
     check_huge(ctx, binpath)
     strace_sample(ctx, binpath)
     c = ctx.extra.get("counters", {})
@@ -202,14 +288,19 @@ def run(ctx):
     ctx.extra["two_way_part"] = {"sessions": ["ascii", "unicode", "headers (Content-Type in front of / behind Content-Length)"], "every_nth_byte": step, "complete": step == 1, "splits": c.get("two_way_splits")}
     ctx.rule = ("sessions with ASCII and non-ASCII document text (2-4-byte characters in text, comments and URI), frames with 2- to 6-digit Content-Length (99/100, 999/1000, 9999/10000, 99999/100000 bytes), "
                 "ending with shutdown + exit; every two-way split (every %s byte offset) incl. inside `\\r\\n\\r\\n`, inside the length digits and inside multi-byte characters; random 3..64-way splits; one byte per "
-                "write; each compared with the unsegmented run; distinct_nontrivial = distinct (mode, session, place of the cut / number of segments)" % ("" if step == 1 else "%dnd" % step))
+                "write; each compared with the unsegmented run; a waiting client (answer to every request awaited before the next message) whose frames arrive in 1-4 segments cut near the end of the header block, "
+                "inside the length and inside the body, with frames of 2-, 3- and 4-digit lengths following each other; distinct_nontrivial = distinct (mode, session, place of the cut / number of segments)" % ("" if step == 1 else "%dnd" % step))
     ctx.assumptions = ["a segment counts as delivered separately when a server thread was observed blocked in read(0) before it was written (handshake); confirmed on a sample with strace"]
     ctx.floor("evaluations", ctx.evaluations, 800)
     ctx.floor("two-way splits compared", c.get("two_way_splits", 0), 600)
+    ctx.floor("sessions of a waiting client with segmented writes", c.get("waiting_sessions", 0), 100)
 
 
 def replay(ctx, sc):
     part = Part(); binpath = server_bin("rel")
+    if sc.get("kind") == "waiting":
+        seed, shard, it = sc["seed"].rsplit("/", 2)
+        ctx.merge(worker_waiting((int(shard), int(it) + 1, seed))); ctx.see(1); ctx.see(2); return
     if sc["session"] == "huge":
         check_huge(ctx, binpath); ctx.see(1); ctx.see(2); return
     data = session_bytes(random.Random("C19/session/%s" % sc["session"]), sc["session"])
